@@ -96,7 +96,7 @@ func propC07(t *rapid.T) {
 	w.allowNullData = true
 	m := w.wallets[0]
 	// phase 1: A watches live
-	long := ev.Thorough() && rapid.IntRange(0, 5).Draw(t, "longChain") == 0
+	long := rapid.IntRange(0, 7).Draw(t, "longChain") == 0 || (ev.Thorough() && rapid.IntRange(0, 4).Draw(t, "longChainT") == 0)
 	n1 := rapid.IntRange(6, 28).Draw(t, "phase1")
 	for i := 0; i < n1; i++ {
 		switch rapid.SampledFrom([]string{"newAddress", "mine", "mine", "mine", "reorg", "deliver", "deliver"}).Draw(t, "act1") {
@@ -228,6 +228,35 @@ func propC07(t *rapid.T) {
 				changesDuringImport++
 				w.flag("reorg-during-import")
 			}
+			w.actReorg(t)
+		},
+		"reorgAtCursor": func(t *rapid.T) {
+			// replace the chain from (about) the height the rescan has reached
+			if !importing() {
+				t.Skip("import finished")
+			}
+			cursor := uint64(0)
+			wl, err := envB.W.Wallets()
+			if err != nil {
+				t.Fatalf("Wallets: %v", err)
+			}
+			for _, s := range wl {
+				if s.WalletID == m.id {
+					cursor = s.Status.SyncedHeight
+				}
+			}
+			tip := w.node.Height()
+			if cursor == 0 || cursor >= tip {
+				t.Skip("rescan cursor not inside the chain")
+			}
+			lowest := int64(cursor) + int64(rapid.SampledFrom([]int{0, 0, 0, 1, -1, 2}).Draw(t, "aboveCursor"))
+			if lowest < 1 || lowest > int64(tip) {
+				t.Skip("out of range")
+			}
+			changesDuringImport++
+			w.flag("reorg-at-rescan-cursor")
+			w.logf("reorg replacing heights >= %d (rescan cursor %d)", lowest, cursor)
+			w.forcedReorgDepth = int(int64(tip) - lowest + 1)
 			w.actReorg(t)
 		},
 		"deliverA": w.actDeliver,
